@@ -10,18 +10,19 @@ mbtvars == <<vars, hist>>
 R(S) == {RandomElement(S)}
 Pick(seq) == seq[RandomElement(1..Len(seq))]
 
-\* outcome weights: faults are frequent but do not drown the successful steps
-SimOutcomes == IF EnableFaults THEN {Pick(<<"ok", "ok", "ok", "fail", "crash">>)} ELSE {"ok"}
-PruneOutcomes == IF EnableFaults THEN {Pick(<<"ok", "ok", "ok", "ok", "fail", "crash">>)} ELSE {"ok"}
+\* outcome weights: faults are frequent but do not drown the successful steps.  (The dummy
+\* parameter keeps TLC from evaluating the random choice once as a constant.)
+SimOutcomes(x) == IF EnableFaults THEN {Pick(<<"ok", "ok", "ok", "fail", "crash">>)} ELSE {"ok"}
+PruneOutcomes(x) == IF EnableFaults THEN {Pick(<<"ok", "ok", "ok", "ok", "fail", "crash">>)} ELSE {"ok"}
 
 SimNext ==
-  IF pc.active THEN \E o \in PruneOutcomes : PruneStep(o)
+  IF pc.active THEN \E o \in PruneOutcomes(ops) : PruneStep(o)
   ELSE IF ~alive THEN Restart
-  ELSE \/ \E o \in SimOutcomes : Store(o)
-       \/ \E o \in SimOutcomes : Store(o)
-       \/ \E o \in SimOutcomes : Revert(o)
-       \/ \E o \in SimOutcomes, n \in R(Nums) : SetL1(n, o)
-       \/ \E o \in SimOutcomes : Snapshot(o)
+  ELSE \/ \E o \in SimOutcomes(ops) : Store(o)
+       \/ \E o \in SimOutcomes(ops) : Store(o)
+       \/ \E o \in SimOutcomes(ops) : Revert(o)
+       \/ \E o \in SimOutcomes(ops), n \in R(Nums) : SetL1(n, o)
+       \/ \E o \in SimOutcomes(ops) : Snapshot(o)
        \/ \E end \in R(1..MaxH) : PruneStart(end)
        \/ Restart
        \/ Query
